@@ -1017,8 +1017,9 @@ def run(ctx: core.Ctx):
     npay = part2(ctx, cases)
     ctx.set("distinct_nontrivial", len(nontriv) + npay)
     ctx.set("exhaustive", not ctx.quick)
-    ctx.set("rule", "part 1: cases = finished behaviours of ProtoIR.tla = api (11 entry points/argument forms) x switch set (17 populated carriers + 7 "
-                    "structural features of the host graph; all sets with <=2 (quick) / <=3 (thorough) switches on and all with <=1 / <=2 off: "
+    ctx.set("rule", "part 1: cases = finished behaviours of ProtoIR.tla = api (11 entry points/argument forms) x switch set (17 populated carriers + 9 "
+                    "structural features of the host graph (incl. differently named symbolic dims joined by Identity, and constant Ifs whose "
+                    "branches own a shadowing initializer); all sets with <=2 (quick) / <=3 (thorough) switches on and all with <=1 / <=2 off: "
                     "pairwise / 3-wise complete); each is built as a real ModelProto and run through the proto entry point, the IR entry point and "
                     "serde twice; non-trivial = at least one populated carrier and the transformation changed something, distinct by (api, switches). "
                     "part 2: every (element type of the real ir.DataType enum x storage form x shape class x with/without metadata) of TensorPayload.tla, "
